@@ -7447,6 +7447,7 @@ pub(crate) fn eval(env: &mut Env, session: &Session) -> Result<Value, EvalError>
                 let return_ty = match Type::from_hint(return_hint, &env.types, &type_bindings) {
                     Ok(ty) => ty,
                     Err(e) => {
+                        env.push_value(return_value.clone());
                         return Err(EvalError::Exception(ExceptionInfo {
                             position: err_pos,
                             message: ErrorMessage(vec![Text(e)]),
